@@ -2,12 +2,15 @@
 
 package dicescript
 
+import "strings"
+
 func init() {
 	vHarnesses["VH_C01_src"] = VH_C01_src
 	vHarnesses["VH_C01_ops2"] = VH_C01_ops2
 	vHarnesses["VH_C01_ops1"] = VH_C01_ops1
 	vHarnesses["VH_C01_ops3"] = VH_C01_ops3
 	vHarnesses["VH_C01_cap"] = VH_C01_cap
+	vHarnesses["VH_C01_longline"] = VH_C01_longline
 	vHarnesses["VH_C01_cycles"] = VH_C01_cycles
 	vHarnesses["VH_C01_srcfmt"] = VH_C01_srcfmt
 	vHarnesses["VH_C01_history"] = VH_C01_history
@@ -101,7 +104,7 @@ func vRepeat(s string, n int) string {
 // blocks, template holes, loops with continue/break inside if, long array
 // literals, parse budget, recursion under a budget.
 //
-//vh:prop=C01 tiers=quick,thorough sigkeys=prog maxdepth=60000 maxsteps=400000000 budget_s=900 bounds="concrete boundary programs: nesting 19/20/21/22 of if/while/template holes, continue/break inside if x25 iterations, array literal 511/512/513, parse budget 10, recursion with op budget 30000, 8190..8194 instructions"
+//vh:prop=C01 tiers=quick,thorough sigkeys=prog maxdepth=60000 maxsteps=400000000 budget_s=900 bounds="concrete boundary programs: nesting 19/20/21/22 of if/while/template holes, continue/break inside if x25 iterations, array literal 511/512/513, parse budget 10, recursion with op budget 30000, 8190..8194 instructions, over-long function / computed bodies of variable loads inside a ternary"
 func VH_C01_cap() {
 	var progs []string
 	for _, n := range []int{19, 20, 21, 22} {
@@ -122,6 +125,11 @@ func VH_C01_cap() {
 	)
 	for _, n := range []int{511, 512, 513} {
 		progs = append(progs, "["+vRepeat("1,", n-1)+"1]")
+	}
+	// over-long bodies whose jump patches land on the last slot of the full buffer (a detail mark)
+	for _, n := range []int{2731, 2734} {
+		progs = append(progs, "func fn1() { 1 ? ("+vRepeat("x+", n)+"1) : 2 }; fn1()")
+		progs = append(progs, "&v1 = 1 ? ("+vRepeat("x+", n)+"1) : 2; v1")
 	}
 	for _, n := range []int{2729, 2730, 2731} { // 3 instructions per "+1": around the 8192 code cap
 		progs = append(progs, "1"+vRepeat("+1", n))
@@ -252,6 +260,24 @@ func VH_C01_cycles() {
 	err = vm.Run(vC01CycleOps[vChoice("op", len(vC01CycleOps))])
 	vReach("ran")
 	vObserveAll(vm, err)
+}
+
+//vh:prop=C01 tiers=quick,thorough sigkeys=runes,tail,lang budget_s=600 bounds="rejected one-line texts '(' + k CJK characters (k = 15..62, i.e. 46..187 bytes: below, at and above the 60-byte limit at which the quoted line is truncated, with fewer and more than 57 characters) + one of 3 tails, 3 languages, through Parse and RunExpr: the error text is built without a panic"
+func VH_C01_longline() {
+	k := 15 + vChoice("runes", 48)
+	src := "(" + strings.Repeat("力", k) + []string{"", "+1", " +\n1"}[vChoice("tail", 3)]
+	vm := NewVM()
+	vm.Config.ParseErrorLanguage = vChoice("lang", 3)
+	err := vm.Parse(src)
+	vReach("parsed")
+	if err != nil {
+		_ = err.Error()
+		_ = vm.GetErrorText()
+	}
+	_, e2 := vm.RunExpr(src, false)
+	if e2 != nil {
+		_ = e2.Error()
+	}
 }
 
 //vh:prop=C01 tiers=quick,thorough sigkeys=cfg overrides=formatFriendlyError summaries=Roll:roll-log unwind=400 unwind_ok=1 maxsteps=8000000 budget_s=1800 quick:P.n=2 thorough:P.n=3 bounds="every source text of exactly n bytes over ALL byte values 0x00-0xFF (n=2 quick, n=3 thorough; invalid UTF-8 included; shorter texts arise as prefixes followed by a rejected or ignored byte), parsed, run and observed (value, repr, process text, bytecode listing, matched / rest text, error text) and run a second time on the same VM, under 4 configurations (default; every dice family on with min mode; DisableStmts+DisableNDice+DisableBitwiseOp; IgnoreDiv0 with a default-sides expression and budgets 200 / 100): no panic site is feasible; dice are fixed low faces; syntax-error formatting is stubbed here (C19 covers it)"
